@@ -789,28 +789,23 @@ class MaterialIndexer(Indexer):
                 self.data.rows[phase_index][left_index] = other_data[right_index] 
         else:
             other_phase_indexer = other._phase_indexer
+            if self.chemicals is other.chemicals and phase_indexer is other_phase_indexer:
+                self.data.copy_like(other.data)
+                return
+            if not (phase_indexer is other_phase_indexer 
+                    or phase_indexer.compatible_with(other_phase_indexer)):
+                self._expand_phases(other._phases)
+                phase_indexer = self._phase_indexer
+            self.empty()
+            rows = self.data.rows
+            other_data = other.data
             if self.chemicals is other.chemicals:
-                if phase_indexer is other_phase_indexer:
-                    self.data.copy_like(other.data)
-                elif phase_indexer.compatible_with(other_phase_indexer):
-                    self.empty()
-                    data = self.data
-                    for i, j in other: data[phase_indexer(i)] = j
-                else:
-                    self._expand_phases(other._phases)
-                    self.data.copy_like(other.data)
+                for phase, row in zip(other._phases, other_data.rows): 
+                    rows[phase_indexer(phase)].copy_like(row)
             else:
-                self.empty()
-                other_data = other.data
-                data = self.data
                 left_index, right_index = index_overlap(self._chemicals, other._chemicals, [*other_data.nonzero_keys()])
-                if phase_indexer is other_phase_indexer:
-                    data[:, left_index] = other_data[:, right_index]
-                elif phase_indexer.compatible_with(other_phase_indexer):
-                    for i, j in other: data[phase_indexer(i)] += j
-                else:
-                    self._expand_phases(other._phases)
-                    data[:, left_index] = other_data[:, right_index]
+                for phase, row in zip(other._phases, other_data.rows): 
+                    rows[phase_indexer(phase)][left_index] = row[right_index]
                     
     
     def _expand_phases(self, other_phases=None):
